@@ -83,6 +83,25 @@ Section C11.
     load tdim tsize valid_nested valid_embed dec (firstn k b) = None.
   Proof. intros t cs b k. eapply truncated_never_loads; eassumption. Qed.
 
+  (* Soundness of load, for ANY byte string (a file torch_frame.save never wrote,
+     a payload crafted with torch.save, an older layout ...): whatever load
+     returns went through deserialize_feat_dict's class dispatch, the keyword
+     constructors' validate() and TensorFrame.validate(), hence is a well-formed
+     frame -- load either raises or hands back a frame consistent with itself,
+     never an inconsistent one.  (No hypothesis about the codec is used.) *)
+  Theorem load_returns_only_wellformed_frames : forall b (t : tframe tensor) (cs : stats),
+    load tdim tsize valid_nested valid_embed dec b = Some (t, cs) ->
+    tframe_wf tdim tsize valid_nested valid_embed t.
+  Proof. eapply load_sound. Qed.
+
+  (* ... and such a frame, saved again, loads to itself: a second generation
+     from any file whatsoever. *)
+  Theorem loaded_frame_saves_and_loads_to_itself : forall b (t : tframe tensor) (cs : stats),
+    load tdim tsize valid_nested valid_embed dec b = Some (t, cs) ->
+    exists b', save enc t cs = Some b' /\
+               load tdim tsize valid_nested valid_embed dec b' = Some (t, cs).
+  Proof. eapply loaded_frame_roundtrips; eassumption. Qed.
+
   (* ---- the cache, over all event histories ------------------------- *)
   Variable rows cout : Type.
   Variable conv : stats -> rows -> option cout.   (* the converter, as a function of the statistics it holds *)
@@ -168,6 +187,8 @@ Print Assumptions feat_dict_roundtrip.
 Print Assumptions tframe_wfb_sound.
 Print Assumptions save_load_roundtrip.
 Print Assumptions truncated_file_never_loads.
+Print Assumptions load_returns_only_wellformed_frames.
+Print Assumptions loaded_frame_saves_and_loads_to_itself.
 Print Assumptions history_never_partial.
 Print Assumptions crash_free_history_returns_fresh.
 Print Assumptions materialize_writes_cache.
@@ -250,6 +271,23 @@ Section C11_supplied.
     tframe_wf tdim tsize valid_nested valid_embed t ->
     generations tdim tsize valid_nested valid_embed enc dec sels t cs = Some (fold_left (fun a f => f a) sels t).
   Proof. intros sels t cs. eapply generations_transparent; eassumption. Qed.
+  (* Path reuse (utils/io.py save -> torch.save(obj, path), which opens the path
+     truncating): after any number of saves onto ONE path -- over a longer file,
+     a shorter one, a cut one, anything -- load returns exactly the LAST frame
+     and statistics saved. *)
+  Theorem path_reuse_returns_last_saved : forall (l : list (tframe tensor * stats)) f t cs,
+    Forall (fun p => tframe_wf tdim tsize valid_nested valid_embed (fst p)) l ->
+    tframe_wf tdim tsize valid_nested valid_embed t ->
+    reuse_then_load tdim tsize valid_nested valid_embed enc dec OTrunc f (l ++ [(t, cs)]) = Some (t, cs).
+  Proof. intros l f t cs. eapply path_reuse_returns_last; eassumption. Qed.
+
+  (* The truncation is what carries it: opened without truncation, the file is
+     the new bytes followed by the tail of the old file (see the Example below
+     for what load then does). *)
+  Theorem no_truncation_keeps_the_old_tail : forall old t cs b,
+    save enc t cs = Some b ->
+    save_to enc ONoTrunc (Some old) t cs = Some (Some (b ++ skipn (List.length b) old)).
+  Proof. eapply notrunc_keeps_tail. Qed.
 End C11_supplied.
 
 Print Assumptions cache_file_never_rewritten.
@@ -258,6 +296,8 @@ Print Assumptions supplied_statistics_are_cached.
 Print Assumptions restore_ignores_statistics_argument.
 Print Assumptions supplied_history_never_partial.
 Print Assumptions generations_are_transparent.
+Print Assumptions path_reuse_returns_last_saved.
+Print Assumptions no_truncation_keeps_the_old_tail.
 
 (* ------------------------------------------------------------------ *)
 (* The hypotheses are satisfiable together, on a non-trivial state: the toy
@@ -327,3 +367,29 @@ Proof. vm_compute. reflexivity. Qed.
 Example ex_generations :
   c_generations [(fun t => t); ex_sel; (fun t => t)] ex_frame 3%Z = Some (MkTF [] [] None (Some 2)).
 Proof. vm_compute. reflexivity. Qed.
+
+(* load of a crafted payload: an embedding stype handed a MultiNestedTensor-shaped
+   dict is refused by MultiEmbeddingTensor.validate (offset length), a payload
+   whose col_names_dict lacks a key by TensorFrame.validate; the well-formed
+   payload (without num_rows, as older files) loads. *)
+Definition ex_payload (names : list (stype * list string)) (e : ser ctensor) : payload ctensor cstats :=
+  (MkTD None names [(st_embedding, e)] None, 0%Z).
+Definition ex_met_ser : ser ctensor :=
+  to_dict (MkMulti 2 2 (CT 1 [2; 3] [1; 2; 3; 4; 5; 6]%Z) (ex_i64 [0; 1; 3]%Z)).
+Definition ex_mnt_ser : ser ctensor :=
+  to_dict (MkMulti 2 2 (ex_i64 [5; 6; 7]%Z) (ex_i64 [0; 1; 1; 3; 3]%Z)).
+Example ex_crafted_payloads :
+  (exists t, c_load (cenc (ex_payload [(st_embedding, ["e"; "f"]%string)] ex_met_ser)) = Some (t, 0%Z)) /\
+  c_load (cenc (ex_payload [(st_embedding, ["e"; "f"]%string)] ex_mnt_ser)) = None /\
+  c_load (cenc (ex_payload [] ex_met_ser)) = None.
+Proof. split; [eexists; vm_compute; reflexivity|split; vm_compute; reflexivity]. Qed.
+
+(* path reuse on the toy codec: with the truncating open the last save wins;
+   opened WITHOUT truncation over a longer file, the old tail stays behind the
+   new bytes and the file no longer loads (the witness of seeded change C11_5,
+   here with "longer file" = a complete file followed by three stale bytes) *)
+Example ex_path_reuse :
+  let stale := Some (cenc (ex_payload [(st_embedding, ["e"; "f"]%string)] ex_met_ser) ++ [BEnd; BEnd; BEnd]) in
+  c_reuse_then_load OTrunc stale [(ex_frame, 1%Z); (MkTF [] [] None (Some 2), 2%Z)] = Some (MkTF [] [] None (Some 2), 2%Z) /\
+  c_reuse_then_load ONoTrunc stale [(ex_frame, 1%Z)] = None.
+Proof. split; vm_compute; reflexivity. Qed.
